@@ -415,8 +415,10 @@ func (p *Panic) String() string {
 
 // IsError says whether the panic value is an error that is not a runtime.Error.
 func (p *Panic) IsPlainError() bool {
-	if e, ok := p.Value.(error); ok {
-		return !IsRuntimeFaultMsg(e.Error()) && !strings.HasPrefix(p.Type, "runtime.")
+	switch p.Value.(type) {
+	case error, string:
+		// a descriptive string is accepted like an error value (ojg.NewError treats both alike)
+		return !IsRuntimeFaultMsg(p.Msg) && !strings.HasPrefix(p.Type, "runtime.") && !strings.HasPrefix(p.Type, "*runtime.")
 	}
 	return false
 }
